@@ -174,6 +174,23 @@ func (rs *RelationService) VerifHeader() (lastKey uint32, pageTableRoot, nextFre
 	return rs.fs.lastKey, rs.fs.pageTableRoot, rs.fs.nextFreeOffset, rs.fs._nextLSN
 }
 
+// VerifAdvanceCounters raises the row-id counter and the LSN counter of the open
+// database to the given values (never lowers them) and writes the header, so that
+// a test can work in a database as old as it likes: ids beyond 2^16, 2^24, 2^31,
+// LSNs beyond 2^32. Nothing else changes; the pages on disk carry older stamps,
+// exactly as in a database that got there by itself.
+func (rs *RelationService) VerifAdvanceCounters(lastKey uint32, nextLSN uint64) error {
+	rs.fs.lockExclusive()
+	defer rs.fs.unlockExclusive()
+	if lastKey > rs.fs.lastKey {
+		rs.fs.lastKey = lastKey
+	}
+	if nextLSN > rs.fs._nextLSN {
+		rs.fs._nextLSN = nextLSN
+	}
+	return rs.fs.save()
+}
+
 // verifWAL wraps the log file so that EVERY physical write to it announces
 // itself (point wal.fwrite, arg = bytes about to be written), independently of
 // how the code that builds the records is arranged.
